@@ -1338,14 +1338,9 @@ class _SxIOModule(object):
         import io as _io
         return getattr(_io, name)
 
-    @staticmethod
-    def BytesIO(initial=b''):
-        import io as _io
-        if _isinstance(initial, (SBytes, SByteArray, SView)) and not _all_concrete(initial._get_items()):
-            return SymIO(initial)
-        if _isinstance(initial, (SBytes, SByteArray, SView)):
-            return _HybridIO(_bytes(initial._get_items()))
-        return _HybridIO(initial)
+    @property
+    def BytesIO(self):
+        return SxBytesIO
 
 
 class _HybridIO(object):
@@ -1390,6 +1385,23 @@ class _HybridIO(object):
 
     def __iter__(self):
         return iter(self._c if self._s is None else self._s)
+
+
+import io as _io_mod
+
+
+class SxBytesIO(_io_mod.BytesIO):
+    """io.BytesIO stand-in: direct instances dispatch to SymIO / _HybridIO, subclasses made by the
+    real code (class PrinterStream(io.BytesIO)) stay ordinary BytesIO subclasses."""
+
+    def __new__(cls, initial=b''):
+        if cls is SxBytesIO:
+            if _isinstance(initial, (SBytes, SByteArray, SView)):
+                if not _all_concrete(initial._get_items()):
+                    return SymIO(initial)
+                return _HybridIO(_bytes(initial._get_items()))
+            return _HybridIO(initial)
+        return _io_mod.BytesIO.__new__(cls)
 
 
 sx_io = _SxIOModule()
